@@ -148,6 +148,69 @@ def operator_rules(repo, rep):
     rep.floor('R-WIRE', 55, 'operators and comparisons of five classes')
 
 
+def operator_value_table(repo, rep):
+    """x + y and x - y for objects of every pair of classes, built from constant fields: the result denotes dec(x) +/- dec(y) and has the
+    class of the LEFT operand.  Python's operator protocol is followed: a method that returns NotImplemented hands over to the reflected
+    method of the right operand (whose result then has the right operand's class).  Constants fold exactly through the conversions."""
+    m = repo.module('geodepy.angles')
+    vals = {'a': {'DECAngle': [F(12575, 1000)], 'HPAngle': [F(12343, 1000)], 'GONAngle': [F(12575, 900)], 'DMSAngle': [12, 34, 30], 'DDMAngle': [12, F(345, 10)]},
+            'b': {'DECAngle': [F(305, 10)], 'HPAngle': [F(303, 10)], 'GONAngle': [F(305, 9)], 'DMSAngle': [30, 30, 0], 'DDMAngle': [30, 30]}}
+    da, db = F(12575, 1000), F(305, 10)
+
+    def decval(ev, o):
+        if not isinstance(o, Obj) or 'dec' not in o.cls.methods:
+            return None
+        r = ev.invoke(o.cls.methods['dec'], [o], {}, None)
+        r = r.rat if isinstance(r, CallV) else r
+        return r.as_fraction() if isinstance(r, Rat) else None
+    for lc in CLASSES:
+        if lc == 'HPAngle':
+            continue
+        for mname, refl, sign in (('__add__', '__radd__', 1), ('__sub__', '__rsub__', -1)):
+            cls = m.classes.get(lc)
+            f0 = cls.methods.get(mname) if cls is not None else None
+            if f0 is None:
+                continue
+            key = 'R-TABLE::geodepy/angles.py::%s.%s::value-and-class' % (lc, mname)
+            bad = None
+            n_ok = 0
+            for rc in CLASSES:
+                if rc == 'HPAngle' or lc == 'HPAngle':
+                    # the HP readers go through the decimal rendering of a double; with exact rational constants that path does not
+                    # fold reliably - HP operands are left to the wiring rules above
+                    continue
+                ev = Evaluator(repo)
+                ev.fold_const_types = True
+                try:
+                    x = ev.construct(cls, [C(v_) for v_ in vals['a'][lc]], {}, None)
+                    y = ev.construct(m.classes[rc], [C(v_) for v_ in vals['b'][rc]], {}, None)
+                    r = ev.invoke(f0, [x, y], {}, None)
+                    handed_over = False
+                    if not isinstance(r, Obj):
+                        txt = str(getattr(getattr(r, 'target', None), 'name', '')) if isinstance(r, Ref) else (show(r, 2, 60) if r is not None else 'None')
+                        if 'NotImplemented' in txt and refl in m.classes[rc].methods:
+                            r = ev.invoke(m.classes[rc].methods[refl], [y, x], {}, None)
+                            handed_over = True
+                    got = decval(ev, r)
+                except (AnalysisError, RecursionError, KeyError, TypeError, ZeroDivisionError):
+                    continue
+                want = da + sign * db
+                if isinstance(r, Obj) and r.cls.name != lc and bad is None:
+                    bad = (rc, 'the result is a %s%s' % (r.cls.name, ' (the method returns NotImplemented and Python hands over to %s.%s)' % (rc, refl) if handed_over else ''), 'class %s' % lc)
+                elif got is not None and got != want and bad is None:
+                    bad = (rc, 'the result denotes %.12g degrees' % float(got), '%.12g' % float(want))
+                elif isinstance(r, Obj):
+                    n_ok += 1
+            if bad is not None:
+                rc, what_, want_ = bad
+                rep.violated('R-TABLE', key, where(f0, f0.node), '%s(12 34 30) %s %s(30 30 00): %s, expected %s - a binary operation gives the result of the decimal-degree operation in the '
+                             'class of its LEFT operand' % (lc, '+' if sign > 0 else '-', rc, what_, want_), expected=want_, actual=what_)
+            elif n_ok < 3:
+                rep.undecided('R-TABLE', key, where(f0, f0.node), 'only %d of 5 operand classes fold' % n_ok)
+            else:
+                rep.holds('R-TABLE', key, where(f0, f0.node), '%s %s every class: value of the decimal operation, class of the left operand (%d operand classes)' % (lc, '+' if sign > 0 else '-', n_ok))
+
+
 def dec_of(ev, o):
     c = o.cls
     return ev.call_function(c.methods['dec'], {'self': o})
@@ -298,6 +361,7 @@ def run(repo, rep):
     # negation and absolute value on a lattice of DMS / DDM objects (zero degrees, whole minutes, a minutes field of 60)
     from . import c08 as _c08
     _c08.method_value_table(repo, rep)
+    operator_value_table(repo, rep)
     # multiplication, division and modulo take "a number": not only the two builtin number types (numpy integers, 32-bit floats, Fractions)
     ops_ = []
     for cn_ in common.ANGLE_CLASSES:
